@@ -358,4 +358,64 @@ func init() {
 		Variant{Name: "copy loop stops one short", Property: "C05", File: pst,
 			Old: "\tfor i := 0; i < b.size; i++ {\n\t\tidx := (b.head + i) % len(b.entries)\n\t\tnewEntries[i] = b.entries[idx]", New: "\tfor i := 1; i < b.size; i++ {\n\t\tidx := (b.head + i) % len(b.entries)\n\t\tnewEntries[i] = b.entries[idx]", Expect: "O5.2"},
 	)
+	// ---- C01
+	addVariants(
+		Variant{Name: "maximum instead of minimum over the targets", Property: "C01", File: pst,
+			Old: "\t\t\t\t\tif first || wm < min {", New: "\t\t\t\t\tif first || wm > min {", Expect: "O1.1"},
+		Variant{Name: "targets at watermark zero excluded from the minimum", Property: "C01", File: pst,
+			Old: "\t\t\t\tfor _, wm := range r.ackByTarget {\n\t\t\t\t\tif first || wm < min {", New: "\t\t\t\tfor _, wm := range r.ackByTarget {\n\t\t\t\t\tif wm == 0 {\n\t\t\t\t\t\tcontinue\n\t\t\t\t\t}\n\t\t\t\t\tif first || wm < min {", Expect: "O1.1"},
+		Variant{Name: "per-source aggregation keeps the smallest id", Property: "C01", File: pst,
+			Old: "\t\tif current, ok := result[m.sourceShard]; !ok || m.sourceTask > current {", New: "\t\tif current, ok := result[m.sourceShard]; !ok || m.sourceTask < current {", Expect: "O1.2"},
+		Variant{Name: "ring entries discarded before the acks are forwarded", Property: "C01", File: pst,
+			Old: "\t\t\tshardToAck, pendingDiscard := s.idRing.AggregateUpTo(proxyAckWatermark)\n\t\t\ts.mu.Unlock()\n", New: "\t\t\tshardToAck, pendingDiscard := s.idRing.AggregateUpTo(proxyAckWatermark)\n\t\t\ts.idRing.Discard(pendingDiscard)\n\t\t\tpendingDiscard = 0\n\t\t\ts.mu.Unlock()\n", Expect: "O1.3"},
+		Variant{Name: "source counted as acknowledged although delivery failed", Property: "C01", File: pst,
+			Old: "\t\t\t\t\t\t} else if !logged[srcShard] {\n\t\t\t\t\t\t\ts.logger.Warn(\"No local ack channel for source shard; retrying until available\", tag.NewStringTag(\"shard\", ClusterShardIDtoString(srcShard)))\n\t\t\t\t\t\t\tlogged[srcShard] = true\n\t\t\t\t\t\t}\n\t\t\t\t\t}\n\t\t\t\t\tif !progress {\n\t\t\t\t\t\ttime.Sleep(backoff)\n\t\t\t\t\t\tif backoff < time.Second {\n\t\t\t\t\t\t\tbackoff *= 2\n\t\t\t\t\t\t}\n\t\t\t\t\t} else if backoff > 10*time.Millisecond {\n\t\t\t\t\t\tbackoff = 10 * time.Millisecond\n\t\t\t\t\t}\n\t\t\t\t}\n\n\t\t\t\t// TODO: ack to idle shards using prevAckBySource", New: "\t\t\t\t\t\t} else if !logged[srcShard] {\n\t\t\t\t\t\t\ts.logger.Warn(\"No local ack channel for source shard; retrying until available\", tag.NewStringTag(\"shard\", ClusterShardIDtoString(srcShard)))\n\t\t\t\t\t\t\tlogged[srcShard] = true\n\t\t\t\t\t\t\tnumRemaining--\n\t\t\t\t\t\t\tsent[srcShard] = true\n\t\t\t\t\t\t}\n\t\t\t\t\t}\n\t\t\t\t\tif !progress {\n\t\t\t\t\t\ttime.Sleep(backoff)\n\t\t\t\t\t\tif backoff < time.Second {\n\t\t\t\t\t\t\tbackoff *= 2\n\t\t\t\t\t\t}\n\t\t\t\t\t} else if backoff > 10*time.Millisecond {\n\t\t\t\t\t\tbackoff = 10 * time.Millisecond\n\t\t\t\t\t}\n\t\t\t\t}\n\n\t\t\t\t// TODO: ack to idle shards using prevAckBySource", Expect: "O1.3"},
+		Variant{Name: "watermark broadcast limited to the receiver's own shard number", Property: "C01", File: pst,
+			Old: "\t\t\t\tlocalShardsToSend := r.shardManager.GetRemoteSendChansByCluster(r.targetShardID.ClusterID)", New: "\t\t\t\tlocalShardsToSend := r.shardManager.GetRemoteSendChansByCluster(r.sourceShardID.ClusterID)", Expect: "O1.4"},
+	)
+	// ---- C03
+	addVariants(
+		Variant{Name: "monotonicity guard dropped", Property: "C03", File: pst,
+			Old: "\t\t\t\tif !first && min >= lastSentMin {", New: "\t\t\t\tif !first && lastSentMin >= 0 {", Expect: "O3.1"},
+		Variant{Name: "clamp removed", Property: "C03", File: pst,
+			Old: "\t\t\t\t\t\tmin = lastExclusiveHighOriginal\n", New: "", Expect: "O3.2"},
+		Variant{Name: "lastSentMin updated before the send", Property: "C03", File: pst,
+			Old: "\t\t\t\t\tr.logger.Debug(\"Receiver sending aggregated ACK upstream\", tag.NewInt64(\"inclusive_low\", min))\n", New: "\t\t\t\t\tr.logger.Debug(\"Receiver sending aggregated ACK upstream\", tag.NewInt64(\"inclusive_low\", min))\n\t\t\t\t\tr.lastSentMin = min\n", Expect: "O3.3"},
+		Variant{Name: "keep-alive sends a fresh zero ack", Property: "C03", File: pst,
+			Old: "\t\t\t\tif err := sourceStreamClient.Send(lastAck); err != nil {", New: "\t\t\t\tlastAck = &adminservice.StreamWorkflowReplicationMessagesRequest{Attributes: &adminservice.StreamWorkflowReplicationMessagesRequest_SyncReplicationState{SyncReplicationState: &replicationv1.SyncReplicationState{}}}\n\t\t\t\tif err := sourceStreamClient.Send(lastAck); err != nil {", Expect: "O3.4"},
+		Variant{Name: "clamp bound taken from the first task id", Property: "C03", File: pst,
+			Old: "\t\t\tr.lastExclusiveHighOriginal = attr.Messages.ExclusiveHighWatermark\n", New: "\t\t\tr.lastExclusiveHighOriginal = attr.Messages.ExclusiveHighWatermark + 1\n", Expect: "O3.2"},
+	)
+	// ---- C02
+	addVariants(
+		Variant{Name: "hash modulo the wrong cluster's shard count", Property: "C02", File: cc,
+			Old: "\t\t\t\tOverrideShardCount:     shardCountConfig.RemoteShardCount,\n\t\t\t\tRoutingLocalShardCount: shardCountConfig.LocalShardCount,", New: "\t\t\t\tOverrideShardCount:     shardCountConfig.RemoteShardCount,\n\t\t\t\tRoutingLocalShardCount: shardCountConfig.RemoteShardCount,", Expect: "O2.1"},
+		Variant{Name: "receiver uses the override count as modulus", Property: "C02", File: ast,
+			Old: "\t\tlocalShardCount: routingParameters.RoutingLocalShardCount,", New: "\t\tlocalShardCount: routingParameters.OverrideShardCount,", Expect: "O2.1"},
+		Variant{Name: "allocator bumped twice for the last task", Property: "C02", File: pst,
+			Old: "\t\t\t\tproxyExclusiveHigh = m.Messages.ReplicationTasks[len(m.Messages.ReplicationTasks)-1].SourceTaskId + 1\n", New: "\t\t\t\ts.nextProxyTaskID++\n\t\t\t\tproxyExclusiveHigh = m.Messages.ReplicationTasks[len(m.Messages.ReplicationTasks)-1].SourceTaskId + 1\n", Expect: "O2.2"},
+		Variant{Name: "raw task info keeps the original id", Property: "C02", File: pst,
+			Old: "\t\t\t\t\tif t.RawTaskInfo != nil {\n\t\t\t\t\t\tt.RawTaskInfo.TaskId = proxyID\n\t\t\t\t\t}\n", New: "", Expect: "O2.3"},
+		Variant{Name: "exclusive high equals the last task id", Property: "C02", File: pst,
+			Old: "\t\t\t\tproxyExclusiveHigh = m.Messages.ReplicationTasks[len(m.Messages.ReplicationTasks)-1].SourceTaskId + 1\n", New: "\t\t\t\tproxyExclusiveHigh = m.Messages.ReplicationTasks[len(m.Messages.ReplicationTasks)-1].SourceTaskId\n", Expect: "O2.3"},
+		Variant{Name: "target marked sent after the first attempt", Property: "C02", File: pst,
+			Old: "\t\t\t\t\t} else {\n\t\t\t\t\t\tif !loggedByTarget[targetShardID] {", New: "\t\t\t\t\t} else {\n\t\t\t\t\t\tsentByTarget[targetShardID] = true\n\t\t\t\t\t\tnumRemaining--\n\t\t\t\t\t\tif !loggedByTarget[targetShardID] {", Expect: "O2.4"},
+		Variant{Name: "allocation in the watermark-only branch not recorded", Property: "C02", File: pst,
+			Old: "\t\t\t\ts.idRing.Append(proxyHigh, routed.SourceShard, originalHigh)\n", New: "", Expect: "O2.2"},
+		Variant{Name: "hash uses the run id instead of the workflow id", Property: "C02", File: pst,
+			Old: "servercommon.WorkflowIDToHistoryShard(task.RawTaskInfo.NamespaceId, task.RawTaskInfo.WorkflowId, r.localShardCount)", New: "servercommon.WorkflowIDToHistoryShard(task.RawTaskInfo.NamespaceId, task.RawTaskInfo.RunId, r.localShardCount)", Expect: "O2.1"},
+	)
+	// ---- C04
+	addVariants(
+		Variant{Name: "separate latches for sender and receiver", Property: "C04", File: ast,
+			Old: "\tgo func() {\n\t\tdefer wg.Done()\n\t\tproxyStreamReceiver.Run(shutdownChan)\n\t}()", New: "\tgo func() {\n\t\tdefer wg.Done()\n\t\tproxyStreamReceiver.Run(channel.NewShutdownOnce())\n\t}()", Expect: "O4.1"},
+		Variant{Name: "ack map allocated once in the constructor path", Property: "C04", File: pst,
+			Old: "\t// init aggregation state\n\tr.ackByTarget = make(map[history.ClusterShardID]int64)\n\tr.lastSentMin = 0\n", New: "\t// init aggregation state\n\tif r.ackByTarget == nil {\n\t\tr.ackByTarget = make(map[history.ClusterShardID]int64)\n\t}\n", Expect: "O4.3"},
+		Variant{Name: "recvAck ends without tripping the latch", Property: "C04", File: pst,
+			Old: "\tdefer func() {\n\t\ts.logger.Debug(\"proxyStreamSender recvAck finished\")\n\t\tshutdownChan.Shutdown()\n\t}()", New: "\tdefer func() {\n\t\ts.logger.Debug(\"proxyStreamSender recvAck finished\")\n\t}()", Expect: "O4.2"},
+		Variant{Name: "receiver worker does not trip the latch", Property: "C04", File: pst,
+			Old: "\t\tdefer func() {\n\t\t\tshutdownChan.Shutdown()\n\t\t\twg.Done()\n\t\t}()\n\t\t_ = r.recvReplicationMessages(sourceStreamClient, shutdownChan)", New: "\t\tdefer func() {\n\t\t\twg.Done()\n\t\t}()\n\t\t_ = r.recvReplicationMessages(sourceStreamClient, shutdownChan)", Expect: "O4.2"},
+		Variant{Name: "lifetime end does not stop routed streams", Property: "C04", File: ast,
+			Old: "\tshutdownChan := channel.NewShutdownOnce()\n\t// Wire lifetime context to shutdownChan so cluster connection termination closes the stream\n\tcontext.AfterFunc(lifetime, func() {\n\t\tshutdownChan.Shutdown()\n\t})\n\twg := sync.WaitGroup{}", New: "\tshutdownChan := channel.NewShutdownOnce()\n\twg := sync.WaitGroup{}", Expect: "O4.1"},
+	)
 }
